@@ -326,9 +326,17 @@ def render(lay, order_seed=None):
             cm = manifests[c]
             if not cm.get('registered', True):
                 continue
-            entries.append(R.Entry(
+            ment = R.Entry(
                 'MANIFEST', path=rel(cm['p'], m['dir']), size=len(data),
-                checksums=R.digests(data, cm['mhash'])))
+                checksums=R.digests(data, cm['mhash']))
+            dent = R.Entry('DATA', path=ment.path, size=ment.size,
+                           checksums=dict(ment.checksums))
+            # (a Manifest file that is *also* listed as a plain data file)
+            if cm.get('also_data') == 'before':
+                entries.append(dent)
+            entries.append(ment)
+            if cm.get('also_data') == 'after':
+                entries.append(dent)
         for c, cm in enumerate(manifests):
             x = cm.get('extra_ref')
             if x and x['holder'] == i and c in rendered:
